@@ -31,6 +31,7 @@ type runConfig struct {
 	MaxDecisions   int
 	MaxPaths       int64
 	MaxViolations  int
+	OkSamples      int
 	MaxTimerFires  int
 	Workers        int
 	Verbose        bool
@@ -67,6 +68,7 @@ type harnessResult struct {
 	Violations     []*violation     `json:"violations"`
 	ViolationSigs  map[string]int   `json:"violation_signatures"`
 	Samples        []map[string]any `json:"samples"`
+	OkSamples      []map[string]any `json:"ok_samples"`
 	BoundClosed    bool             `json:"bound_closed"`
 	WallSeconds    float64          `json:"wall_s"`
 	Params         map[string]int   `json:"params"`
@@ -155,6 +157,7 @@ func cmdRun(args []string) int {
 	maxPaths := fs.Int64("max-paths", 200000, "path budget per harness")
 	maxViol := fs.Int("max-violations", 5, "stop after this many violations")
 	maxDec := fs.Int("max-decisions", 4000, "per-path decision budget")
+	okSamples := fs.Int("ok-samples", 0, "record up to N replayable ok paths (engine/native agreement test)")
 	verbose := fs.Bool("v", false, "verbose")
 	trace := fs.Bool("trace", false, "trace instructions")
 	params := fs.String("param", "", "k=v,... harness parameters (bounds)")
@@ -166,7 +169,7 @@ func cmdRun(args []string) int {
 	fs.Parse(args)
 
 	cfg := &runConfig{Solver: *solver, QueryTimeoutMs: *qto, StepBudget: *steps, MaxDecisions: *maxDec,
-		MaxPaths: *maxPaths, MaxViolations: *maxViol, MaxTimerFires: 64, Workers: *workers, Verbose: *verbose,
+		MaxPaths: *maxPaths, MaxViolations: *maxViol, OkSamples: *okSamples, MaxTimerFires: 64, Workers: *workers, Verbose: *verbose,
 		Params: map[string]int{}, Env: map[string]string{}, TimeBudget: *timeBudget}
 	for _, kv := range strings.Split(*params, ",") {
 		if kv == "" {
@@ -321,7 +324,7 @@ func runHarness(prog *ssa.Program, pkg *ssa.Package, fn *ssa.Function, cfg *runC
 	wg.Wait()
 	res := &harnessResult{Harness: fn.Name(), Paths: sh.paths, Outcomes: sh.results, Reasons: sh.reasons,
 		Nodes: sh.nodes, MaxDepth: sh.maxDepth, Steps: sh.steps, Covers: sh.covers, Violations: sh.viols,
-		Samples: sh.samples, Params: cfg.Params, AssertsChecked: sh.assertsChecked, AssertsUnsat: sh.assertsUnsat,
+		Samples: sh.samples, OkSamples: sh.okSamples, Params: cfg.Params, AssertsChecked: sh.assertsChecked, AssertsUnsat: sh.assertsUnsat,
 		AssertSites: sh.assertSites, SolverUnknown: sh.unknowns, ViolationSigs: sh.violSigs,
 		Functions: map[string]int64{}, Stubs: map[string]int64{}}
 	for _, ex := range execs {
